@@ -254,11 +254,13 @@ pub fn plan(prop: &str, tier: Tier) -> Option<Plan> {
         }
         "C03" => {
             p.armed = O_FRAMING;
+            s2::add_whitespace_run_sweep(&mut p, q);
             all_areas(&mut p, "C03", &all_hdr, &[0, 1, 2, 16], if q { 6 } else { 8 }, if q { 4 } else { 6 }, if q { 5 } else { 7 }, 1, &multi_req, &multi_resp);
             s2::add_template_mutations(&mut p, q, &[Backend::Native]);
         }
         "C04" => {
             p.armed = O_ZEROCOPY;
+            s2::add_whitespace_run_sweep(&mut p, q);
             all_areas(&mut p, "C04", &all_hdr, &[0, 1, 2, 16], if q { 6 } else { 8 }, if q { 4 } else { 6 }, 3, 1, &multi_req, &multi_resp);
             stretched(&mut p, "C04", &all_hdr, &[9, 17, 33], if q { 4 } else { 5 }, if q { 3 } else { 4 }, &multi_req, &multi_resp, &BACKENDS);
             s2::add_template_mutations(&mut p, q, &[Backend::Native]);
@@ -266,6 +268,7 @@ pub fn plan(prop: &str, tier: Tier) -> Option<Plan> {
         }
         "C05" => {
             p.armed = O_HYGIENE;
+            s2::add_whitespace_run_sweep(&mut p, q);
             all_areas(&mut p, "C05", &all_hdr, &[4], if q { 6 } else { 8 }, if q { 4 } else { 6 }, 3, 1, &multi_req, &multi_resp);
             s2::add_template_mutations(&mut p, q, &BACKENDS);
             s2::add_lane_phase(&mut p, q, &BACKENDS);
@@ -274,10 +277,18 @@ pub fn plan(prop: &str, tier: Tier) -> Option<Plan> {
         }
         "C06" => {
             p.armed = O_LANG;
+            s2::add_whitespace_run_sweep(&mut p, q);
             let none = Companions::None;
             let d = if q { 5 } else { 7 };
             p.phases.push(phase(&format!("C06: S1 request-line trees D={d}"), Backend::Native, tree_tasks(request_trees(&multi_req, 2, 1, d, 1, &none))));
             p.bounds.push(format!("S1: request line Σ(19)^≤{d} × 17 contexts × both multi-space settings, E=1"));
+            {
+                let mut sp = request_trees(&multi_req, 2, 1, d - 1, 0, &none);
+                for s in sp.iter_mut() {
+                    s.lane.entry = Entry::ReqCfgUninit;
+                }
+                p.phases.push(phase(&format!("C06: S1 request-line trees through parse_request_with_uninit_headers D={}", d - 1), Backend::Native, tree_tasks(sp)));
+            }
             for &b in &BACKENDS {
                 for k in [9usize, 17, 33] {
                     let dk = if q { 3 } else { 4 };
@@ -291,10 +302,18 @@ pub fn plan(prop: &str, tier: Tier) -> Option<Plan> {
         }
         "C07" => {
             p.armed = O_LANG;
+            s2::add_whitespace_run_sweep(&mut p, q);
             let none = Companions::None;
             let d = if q { 5 } else { 7 };
             p.phases.push(phase(&format!("C07: S1 status-line trees D={d}"), Backend::Native, tree_tasks(status_trees(&multi_resp, 2, 1, d, 1, &none))));
             p.bounds.push(format!("S1: status line Σ(19)^≤{d} × 15 contexts × both multi-space settings, E=1"));
+            {
+                let mut sp = status_trees(&multi_resp, 2, 1, d - 1, 0, &none);
+                for s in sp.iter_mut() {
+                    s.lane.entry = Entry::RespCfgUninit;
+                }
+                p.phases.push(phase(&format!("C07: S1 status-line trees through parse_response_with_uninit_headers D={}", d - 1), Backend::Native, tree_tasks(sp)));
+            }
             for &b in &BACKENDS {
                 for k in [9usize, 17, 33] {
                     let dk = if q { 3 } else { 4 };
@@ -307,6 +326,7 @@ pub fn plan(prop: &str, tier: Tier) -> Option<Plan> {
         }
         "C08" => {
             p.armed = O_LANG;
+            s2::add_whitespace_run_sweep(&mut p, q);
             let none = Companions::None;
             let d = if q { 8 } else { 10 };
             p.phases.push(phase(&format!("C08: S1 header trees (default options) D={d}"), Backend::Native, tree_tasks(header_trees(&def_hdr, &[4], 1, d, 1, &none))));
@@ -323,6 +343,7 @@ pub fn plan(prop: &str, tier: Tier) -> Option<Plan> {
         }
         "C09" => {
             p.armed = O_LANG | O_FRAMING;
+            s2::add_whitespace_run_sweep(&mut p, q);
             let d = if q { 6 } else { 7 };
             p.phases.push(phase(&format!("C09: S1 chunk-size trees Σ^≤{d}"), Backend::Native, tree_tasks(chunk_trees(d, 1))));
             p.bounds.push(format!("S1: chunk size Σ(14)^≤{d} after 0/14/15/16/17 leading digits, E=1"));
@@ -337,6 +358,7 @@ pub fn plan(prop: &str, tier: Tier) -> Option<Plan> {
         }
         "C11" => {
             p.armed = O_PARTIAL;
+            s2::add_whitespace_run_sweep(&mut p, q);
             all_areas(&mut p, "C11", &all_hdr, &[1, 16], if q { 6 } else { 8 }, if q { 4 } else { 6 }, if q { 5 } else { 7 }, 0, &multi_req, &multi_resp);
             s2::add_prefix_sweep(&mut p, q, &[Backend::Native]);
             s2::add_field_prefix_sweep(&mut p, q, &[Backend::Native]);
@@ -344,6 +366,7 @@ pub fn plan(prop: &str, tier: Tier) -> Option<Plan> {
         }
         "C14" => {
             p.armed = O_LANG;
+            s2::add_whitespace_run_sweep(&mut p, q);
             let none = Companions::None;
             let d = if q { 6 } else { 8 };
             p.phases.push(phase(&format!("C14: S1 header trees, 16 response + 4 request option sets, D={d}"), Backend::Native, tree_tasks(header_trees(&all_hdr, &[4], 1, d, 1, &none))));
